@@ -210,6 +210,23 @@ def adapter_rules(c, res):
                         'SAME-VALUE(set_pos(len))', instance='async %s: radio_buffer.set_pos(len returned by %s)' % (fn.split('::')[0], rxfn.split('::')[-1]))
     if n < 2:
         raise CheckError('floor: set_pos call sites %d < 2' % n)
+    # RadioBuffer::set_pos records exactly the length it is given (the link between the length the radio returned and packet[..pos])
+    sp = c.bf('lorawan_device::radio::RadioBuffer::set_pos')
+    sts = [(bb, si, s_) for bb, si, s_, root, path in sp.field_writes() if path == ['pos']]
+    def _is_given(v):
+        # the argument itself, or the argument capped at the capacity (the same value for every length a radio may report)
+        if v == ('param', 2):
+            return True
+        if isinstance(v, tuple) and v[:1] == ('call',) and v[1].endswith(('cmp::min', 'Ord::min')) and len(v[2]) == 2:
+            a, b = v[2]
+            if a != ('param', 2):
+                a, b = b, a
+            cap = term_str(b)
+            return a == ('param', 2) and cap in ('len(&*arg1.packet)', 'N')
+        return False
+    okp = len(sts) == 1 and sts[0][2].rv.k == 'use' and _is_given(term_of_operand(sp, sts[0][2].rv.ops[0])) and len(list(sp.field_writes())) == 1
+    res.require(okp, 'C18:RadioBuffer::set_pos', 'set_pos does not record exactly the length it is given: %s' % [term_str(term_of_operand(sp, x[2].rv.ops[0])) if x[2].rv.k == 'use' else x[2].rv.k for x in sts],
+                sp.body.path, 'PROVENANCE(pos = argument)', instance='RadioBuffer::set_pos: pos = the given length, nothing else written')
     # RadioBuffer::as_mut_for_read is packet[..pos]
     rb = c.bf('lorawan_device::radio::RadioBuffer::as_mut_for_read')
     for bb, t in rb.calls_to('IndexMut::index_mut'):
